@@ -106,7 +106,9 @@ func drawConfig(t *rt.Tape, p profile) runConfig {
 		c.LatJitter = c.HB/16 - c.LatBase
 	}
 	c.ChunkMode = pick(t, 0, 0, 1, 1, 2)
-	c.StepCost = pick(t, time.Microsecond, 0, 10*time.Microsecond, 100*time.Microsecond)
+	// computation takes simulated time, but a machine has to be fast enough for its
+	// heartbeat timeout: at most HB/50000 per scheduling step
+	c.StepCost = pick(t, c.HB/200000, 0, c.HB/1000000, c.HB/50000)
 	n := c.Voters + c.Nonvoters + c.Spares
 	for i := 0; i < n+2; i++ {
 		c.ClockPPM = append(c.ClockPPM, int64(t.Range(rt.StConfig, 0, 20)-10)*5000)
